@@ -205,13 +205,29 @@ def gen_spheres(p, workdir):
 
 
 def build_config(spec, workdir):
+    cfg = _build_config(spec, workdir)
+    if spec.get("repeat_trash_tags"):
+        # a tag named twice in a trash list is accepted by the activator and harmless (the second trash of the same handler
+        # only bumps its lazy-deletion counter / finds nothing to remove); every tag after it must still be honoured. The
+        # pools get spare handlers so that a candidate that wrongly survives can meet a re-activated factor.
+        for sec in cfg.sections():
+            if cfg.has_option(sec, "trash"):
+                tags = [t.strip() for t in cfg.get(sec, "trash").split(",") if t.strip()]
+                if len(tags) >= 2:
+                    cfg.set(sec, "trash", ", ".join([tags[0]] + tags))
+            if cfg.has_option(sec, "number_event_handlers") and cfg.has_option(sec, "trash"):
+                cfg.set(sec, "number_event_handlers", str(int(cfg.get(sec, "number_event_handlers")) + 3))
+    return cfg
+
+
+def _build_config(spec, workdir):
     from vf import verif_input_handlers
     verif_input_handlers.register()
     os.makedirs(workdir, exist_ok=True)
     if spec.get("dump_interval") and spec["kind"] != "with_dump":
         inner = dict(spec)
         di = inner.pop("dump_interval")
-        return add_dumping(build_config(inner, workdir), di, workdir)
+        return add_dumping(_build_config(inner, workdir), di, workdir)
     if spec["kind"] == "shipped":
         cfg = shipped(spec["name"], workdir, spec.get("end"), spec.get("overrides"))
         if spec.get("multi_process_cores"):
